@@ -304,6 +304,9 @@ func (l *ledgers) onServeReturned2(ni *nodeInc) {
 	if ni.dead {
 		return
 	}
+	// what this incarnation had acknowledged is what the next one must still hold
+	ni.node.ackedIndex, ni.node.ackedTerm = ni.acked, ni.ackedTerm
+	ni.node.lastCrashAtIO = false
 	if ni.serveErr == ErrNodeRemoved {
 		run.reach("node_removed_shutdown")
 		c := l.configAtIndex(l.upto)
